@@ -19,11 +19,17 @@ E2E = {"quick": 120, "thorough": 4000, "on_doubt": 600}
 
 def items(pr):
     return [fn("rp2.gain_loss.GainLoss.__init__"), fn(AAM + "AbstractChronologicalAccountingMethod.seek_non_exhausted_acquired_lot"),
-            fn("rp2.tax_engine._create_unfiltered_taxable_event_set"), fn("rp2.transaction_set.TransactionSet.add_entry")]
+            fn("rp2.tax_engine._create_unfiltered_taxable_event_set"), fn("rp2.transaction_set.TransactionSet.add_entry"), custom("lot_window", lot_window)]
 
 
 def vc_filter(vc):
     return True
+
+
+def lot_window(pr):
+    """The window of lots offered to a disposal: lots up to the last one not later than the event, found through keys that order like (instant, id)."""
+    from props import C09
+    return C09.set_to_index_window(pr)
 
 
 MANIFEST_ENTRY = {
